@@ -226,7 +226,9 @@ theorem C02_sound_strong (ext : Ext) (allowSlow : Bool) (S : Schema) (node : Nod
     * `svOK sv`: every integer lies in the range of its Rust type and every length is below
       `2 ^ 63`;
     * `schemaSmall S`: unions and enums have fewer than `2 ^ 63` branches/symbols;
-    * `ExtOK ext`: `rust_decimal` mantissas fit `i128`, scales fit a `long`. -/
+    * `ExtOK ext`: `rust_decimal` mantissas fit `i128` (parsed / converted ones, and rescaled
+      ones when the argument did), scales fit a `long`; met by the test driver's parameter
+      tables (`Driver.toExt_ExtOK`). -/
 theorem C02_sound_partial (ext : Ext) (allowSlow : Bool) (S : Schema) (node : Node)
     (sv : SV) (o : Bytes) (p : Pool)
     (hok : (ser ext allowSlow S node sv { out := o, budget := none, pool := p }).1 = .ok ())
